@@ -289,7 +289,7 @@ def _ob_window(n0: int, n1: int, n2: int, p0: int, p1: int, p2: int,
     """
     pre: n0 >= 0 and n1 >= 0 and n2 >= 0
     pre: p0 >= 0 and p1 >= 0 and p2 >= 0 and e0 >= 0 and e1 >= 0 and e2 >= 0
-    pre: 1 <= npos <= 4 and 1 <= next_ <= 4
+    pre: 0 <= npos <= 4 and 0 <= next_ <= 4
     post: __return__
     """
     import numpy as np
@@ -301,11 +301,13 @@ def _ob_window(n0: int, n1: int, n2: int, p0: int, p1: int, p2: int,
     extents = [es[d % 3] for d in range(next_)]
     try:
         dv = da.get_slice(positions, extents)      # index mode is the default
-    except IncompatibleDimensions:
+    except (IncompatibleDimensions, IndexError):
         return npos != R or next_ != R
+    beyond = (npos == R and next_ == R) and any(ps[d] + es[d] > ns[d] for d in range(R))
     if npos != R or next_ != R:
-        return False
-    beyond = any(ps[d] + es[d] > ns[d] for d in range(R))
+        # a window of the wrong rank (also an EMPTY position / extent vector) is refused, or yields a view
+        # that is invalid: it reads as empty, refuses writes, and nothing reaches the array
+        beyond = True
     if beyond:
         if dv.valid:
             return False
